@@ -155,7 +155,24 @@ inline bool mutate_tree(std::vector<Node> &roots, Rng &r, size_t hardMax, const 
     // stays near the current size so that large max_len does not flood the corpus with huge inputs.
     size_t total = 0; { Bytes all; ser_list(roots, all); total = all.size(); }
     size_t maxOut = hardMax < total + total / 2 + 1024 ? hardMax : total + total / 2 + 1024;
-    unsigned op = (unsigned) r.below(donor ? 15 : 14);
+    unsigned op = (unsigned) r.below(donor ? 16 : 15);
+    if (op == 14) { // consistent tail truncation: the right-most leaf (of the whole input, or of the chosen subtree) keeps
+                    // only its first j bytes while every ancestor is re-encoded with the length that is really present -
+                    // the inner TLV claims more than its enclosing SEQUENCE / the buffer holds.
+        Node *leaf = r.below(2) ? &roots.back() : &nd;
+        int guard = 0;
+        while (leaf->parsedKids && !leaf->kids.empty() && guard++ < 200) leaf = &leaf->kids.back();
+        if (leaf->raw) return false;
+        Bytes b; ser(*leaf, b);
+        if (b.size() < 2) return false;
+        size_t j;
+        switch (r.below(4)) { case 0: j = 1; break; case 1: j = 2; break; case 2: j = b.size() - 1; break; default: j = 1 + r.below(b.size() - 1); }
+        if (j >= b.size()) j = b.size() - 1;
+        Node blob; blob.raw = true; blob.content.assign(b.begin(), b.begin() + j);
+        *leaf = std::move(blob);
+        return true;
+    }
+    if (op == 15) op = 14; // becomes the splice case below (donor present)
     if (op == 13) { // pad one primitive value so that the OUTERMOST TLV's content length lands on a 15/16-bit boundary
         static const size_t targets[] = { 0x7fff, 0x8000, 0x8001, 0xfffb, 0xfffc, 0xfffd, 0xfffe, 0xffff, 0x10000, 0x10001, 0x10004 };
         size_t want = targets[r.below(sizeof targets / sizeof targets[0])];
@@ -171,7 +188,7 @@ inline bool mutate_tree(std::vector<Node> &roots, Rng &r, size_t hardMax, const 
         }
         return true;
     }
-    if (op == 14) op = 13; // splice (donor present)
+    if (op == 14) op = 13; // splice (donor present) is the default: branch of the switch
     switch (op) {
     case 0: // tag change
         switch (r.below(3)) { case 0: nd.tag = kTags[r.below(sizeof kTags)]; break; case 1: nd.tag ^= (uint8_t) (1u << r.below(8)); break; default: nd.tag = (uint8_t) r.next(); }
